@@ -19,7 +19,22 @@ fn model_specs(tier: Tier) -> Vec<Spec> {
     }
 }
 
-fn real_specs(tier: Tier) -> Vec<Spec> {
+fn real_specs(tier: Tier, property: &str) -> Vec<Spec> {
+    if property == "C02" {
+        // C02's own space is the presentation space; the rotating presentations of the grammar scopes come on top
+        return match tier {
+            Tier::Quick => {
+                let mut v = vec![Spec::PSpace { max_fields: 3, recursion: true }];
+                v.extend(all_seed_nbh(0, 0, 1));
+                v
+            }
+            Tier::Thorough => {
+                let mut v = vec![Spec::PSpace { max_fields: 3, recursion: true }, g(2, 2, 3, 2), g(1, 2, 3, 3), g(2, 2, 2, 3)];
+                v.extend(all_seed_nbh(1, 1, 2000));
+                v
+            }
+        };
+    }
     match tier {
         Tier::Quick => {
             let mut v = vec![gsym(2, 2, 3, 2)];
@@ -38,7 +53,7 @@ pub fn run(ctx: &Ctx, property: &'static str) -> Outcome {
     let mut out = Outcome::new("model_checking");
     let deep = ctx.tier == Tier::Thorough;
     // ---- real-code layer (E3)
-    let real = crate::reallayer::run_layer(property, &real_specs(ctx.tier), deep, ctx.tier.pick(0, 1));
+    let real = crate::reallayer::run_layer(property, &real_specs(ctx.tier, property), deep, ctx.tier.pick(0, 1));
     // ---- model layer (E2); C02 is decided on real code alone
     let model = if property == "C02" { None } else { Some(crate::pda::run_model_layer(ctx, property, &model_specs(ctx.tier), ctx.tier.pick(400.0, 3000.0))) };
     let mut notes: Vec<String> = vec![];
